@@ -6,8 +6,12 @@
       closure, before a future exists); W ::= (c I SOP…) | (w J SOP…): sender-side ops (s, t, f, e, ds) performed
       INSIDE the receiver's lock-free windows — `c I` right before the I-th `on_batch` invocation (model: in state
       `taken` before `rxBegin`, resp. in `retryWait` before `rxRetryWaited`), `w J` right before the J-th `wait`
-      invocation (model: before the label that requests the wait). This exercises the interleavings in which
-      sender steps land between the swap-out of a batch and its hand-over. OP (interpreted in order) ::=
+      invocation (model: before the label that requests the wait) — and W ::= (cb V SOP…): sender-side ops
+      performed from INSIDE the callback of watcher V, at the moment it runs (model: right after the label that
+      runs it: `rxFireTake` / `rxFireFlush`, or the `whenFlushed` / `whenEmpty` label itself on the immediate
+      path; there `ds` is skipped — a Sender cannot be dropped inside its own method). This exercises the
+      interleavings in which sender steps land between the swap-out of a batch and its hand-over, between two
+      callbacks, and between the last callback of an empty hand-off and the exit check. OP (interpreted in order) ::=
         (s X) send | (t X) try_send | (f W) when_flushed | (e W) when_empty | (ds) drop Sender | (dr) drop Receiver
         (poll)                      poll the receiver future
         (ok) (fail) (retry X…) (pa) release the processing gate with Ok / Err(no_retry) / Err(retry(remainder)) /
@@ -15,7 +19,8 @@
         (w)                         release the wait gate (retry back-off or idle wait), then poll
       The hand-polled real receiver only ever rests at an await point, so the driver FUSES the model's receiver
       labels between two await points (`advance`): rxTake; rxBegin; and an `rxOutcome panicSync` whenever the call
-      just made is scripted to panic in the closure. Each fused label is an application of `Batcher.step`.
+      just made is scripted to panic in the closure; every callback is its own label (`rxFireTake`/`rxFireFlush`).
+      Each fused label is an application of `Batcher.step`.
       Output: one token per op `<tag>{,<event>}|<queue_length>/<queue_full_truncated>` and a final token
       `F:<receiver state>,<counters>`; events are `!W` (flush callback W ran), `?W` (when_empty callback W ran),
       `~W` (flush callback W dropped unrun),
@@ -83,24 +88,61 @@ def senderTag (cfg : Cfg) (s : St) : Label → String
   | .dropReceiver => "dr"
   | _ => "?"
 
-/-- Sender ops performed inside a window: each is one sender label; output = its events, then `+<tag>`. -/
-def payload (cfg : Cfg) : St → List Label → List String → St × List String
-  | s, [], acc => (s, acc)
-  | s, l :: ls, acc =>
-    match micro cfg s l with
-    | none => payload cfg s ls (acc ++ ["+x"])
-    | some (s', e) => payload cfg s' ls (acc ++ e ++ [s!"+{senderTag cfg s l}"])
-
 structure Windows where
   calls : List (Nat × List Label)
   waits : List (Nat × List Label)
+  cbs : List (Nat × List Label)     -- sender ops performed from INSIDE the callback of watcher W (once)
+
+/-- Driver state: the model state and the watcher ids whose callback payload has already run. -/
+abbrev DS := St × List Nat
+
+/-- The watcher whose callback ran inside this sender label (immediate path of when_flushed / when_empty). -/
+def firedNow (s s' : St) : Label → Option Nat
+  | .whenFlushed w => if s'.fired.length > s.fired.length then some w else none
+  | .whenEmpty w => if s'.firedTake.length > s.firedTake.length then some w else none
+  | _ => none
+
+mutual
+/-- One sender-side op = one sender label, followed — if the label ran a callback at once — by the sender ops
+    scripted for INSIDE that callback (each again a sender label, executed right after: the callback runs after
+    the lock is released). `imm` = we are inside a sender call (a callback invoked by when_flushed / when_empty
+    itself): the Sender cannot be dropped there, `ds` is skipped on both sides. -/
+def senderOp (cfg : Cfg) (win : Windows) : Nat → Bool → DS → Label → DS × String × List String
+  | 0, _, ds, _ => (ds, "fuel!", [])
+  | fuel + 1, imm, (s, used), l =>
+    if imm && l == .dropSender then ((s, used), "x", [])
+    else match micro cfg s l with
+      | none => ((s, used), "x", [])
+      | some (s', e) =>
+        let tag := senderTag cfg s l
+        match firedNow s s' l with
+        | some w => let (ds', pe) := cbPayload cfg win fuel true (s', used) w; (ds', tag, e ++ pe)
+        | none => ((s', used), tag, e)
+
+/-- The sender ops scripted for inside the callback of watcher `w` (at most once per id); each prints its events,
+    then `+<tag>`. -/
+def cbPayload (cfg : Cfg) (win : Windows) : Nat → Bool → DS → Nat → DS × List String
+  | 0, _, ds, _ => (ds, ["fuel!"])
+  | fuel + 1, imm, (s, used), w =>
+    if used.contains w then ((s, used), [])
+    else match win.cbs.lookup w with
+      | none => ((s, used), [])
+      | some ops => senderOps cfg win fuel imm (s, w :: used) ops []
+
+def senderOps (cfg : Cfg) (win : Windows) : Nat → Bool → DS → List Label → List String → DS × List String
+  | 0, _, ds, _, acc => (ds, acc ++ ["fuel!"])
+  | _ + 1, _, ds, [], acc => (ds, acc)
+  | fuel + 1, imm, ds, l :: ls, acc =>
+    let (ds', tag, e) := senderOp cfg win fuel imm ds l
+    senderOps cfg win fuel imm ds' ls (acc ++ e ++ [s!"+{tag}"])
+end
 
 /-- A receiver label with the window ops that the real code would execute inside it: if the label invokes
     `on_batch` (resp. `wait`) for the I-th (J-th) time and a window is scripted for that index, the window's
-    sender labels are executed FIRST (from the state before the label — they commute with the callbacks the label
-    fires, which touch ghost history only), and the output is ordered as the code produces it: callbacks, window
-    ops, then the call / wait. -/
-def rxStep (cfg : Cfg) (win : Windows) (s : St) (l : Label) : Option (St × List String) :=
+    sender labels are executed FIRST (the label reads no shared state), and the output is ordered as the code
+    produces it: window ops, then the call / wait. -/
+def rxStep (cfg : Cfg) (win : Windows) (ds : DS) (l : Label) : Option (DS × List String) :=
+  let (s, used) := ds
   match step cfg s l with
   | none => none
   | some s1 =>
@@ -109,72 +151,80 @@ def rxStep (cfg : Cfg) (win : Windows) (s : St) (l : Label) : Option (St × List
       else if s1.waits.length > s.waits.length then win.waits.lookup s.waits.length
       else none
     match w with
-    | none => some (s1, events s s1)
+    | none => some ((s1, used), events s s1)
     | some ops =>
-      let (s0, pev) := payload cfg s ops []
+      let ((s0, used0), pev) := senderOps cfg win 64 false (s, used) ops []
       match step cfg s0 l with
-      | none => some (s0, pev ++ ["stuck!"])
-      | some s2 =>
-        some (s2,
-          (s2.firedTake.drop s0.firedTake.length).map (fun w => s!"?{w}")
-          ++ (s2.fired.drop s0.fired.length).map (fun w => s!"!{w}")
-          ++ pev
-          ++ (s2.calls.drop s0.calls.length).map (fun b => s!"c({showItems b})")
-          ++ (s2.waits.drop s0.waits.length).map (fun d => s!"w{d}"))
+      | none => some ((s0, used0), pev ++ ["stuck!"])
+      | some s2 => some ((s2, used0), pev ++ events s0 s2)
 
-/-- Run the receiver from where it is to its next await point (or its return). -/
-def advance (cfg : Cfg) (sp : List Nat) (win : Windows) : Nat → St → List String → St × List String
-  | 0, s, evs => (s, evs ++ ["fuel!"])
-  | fuel + 1, s, evs =>
-    let next : Option Label :=
+/-- Run the receiver from where it is to its next await point (or its return): the hand-off, every callback one
+    by one (each followed by the sender ops scripted for inside it), the call / exit check, and an
+    `rxOutcome panicSync` whenever the call just made is scripted to panic in the closure. -/
+def advance (cfg : Cfg) (sp : List Nat) (win : Windows) : Nat → DS → List String → DS × List String
+  | 0, ds, evs => (ds, evs ++ ["fuel!"])
+  | fuel + 1, (s, used), evs =>
+    -- (label, watcher whose callback this label runs)
+    let next : Option (Label × Option Nat) :=
       match s.rx with
-      | .idle => some .rxTake
-      | .taken _ _ _ _ => some .rxBegin
-      | .processing _ _ _ => if sp.contains (s.calls.length - 1) then some (.rxOutcome .panicSync) else none
+      | .idle => some (.rxTake, none)
+      | .taken _ (w :: _) _ _ => some (.rxFireTake, some w)
+      | .taken [] [] (w :: _) _ => some (.rxFireFlush, some w)
+      | .taken _ [] _ _ => some (.rxBegin, none)
+      | .notifying (w :: _) => some (.rxFireFlush, some w)
+      | .processing _ _ _ => if sp.contains (s.calls.length - 1) then some (.rxOutcome .panicSync, none) else none
       | _ => none
     match next with
-    | none => (s, evs)
-    | some l =>
-      match rxStep cfg win s l with
-      | none => (s, evs ++ ["stuck!"])
-      | some (s', e) => advance cfg sp win fuel s' (evs ++ e)
+    | none => ((s, used), evs)
+    | some (l, cb) =>
+      match rxStep cfg win (s, used) l with
+      | none => ((s, used), evs ++ ["stuck!"])
+      | some (ds', e) =>
+        match cb with
+        | none => advance cfg sp win fuel ds' (evs ++ e)
+        | some w =>
+          let (ds'', pe) := cbPayload cfg win 64 false ds' w
+          advance cfg sp win fuel ds'' (evs ++ e ++ pe)
 
 def tok (tag : String) (evs : List String) (s : St) : String :=
   ",".intercalate (tag :: evs) ++ s!"|{s.pending.length}/{s.mTruncated}"
 
 /-- Interpret one op; returns the new state and the output token. -/
-def runOp (cfg : Cfg) (sp : List Nat) (win : Windows) (s : St) : Op → St × String
+def runOp (cfg : Cfg) (sp : List Nat) (win : Windows) (ds : DS) : Op → DS × String
+  | .lab .dropReceiver =>
+    match micro cfg ds.1 .dropReceiver with
+    | none => (ds, tok "x" [] ds.1)
+    | some (s', e) => ((s', ds.2), tok "dr" e s')
   | .lab l =>
-    match micro cfg s l with
-    | none => (s, tok "x" [] s)
-    | some (s', e) => (s', tok (senderTag cfg s l) e s')
+    let (ds', tag, e) := senderOp cfg win 64 false ds l
+    (ds', tok tag e ds'.1)
   | .poll =>
-    match s.rx with
-    | .done => (s, tok "x" [] s)
-    | .idle => let (s', e) := advance cfg sp win 16 s []; (s', tok "r" e s')
-    | _ => (s, tok "r" [] s)
+    match ds.1.rx with
+    | .done => (ds, tok "x" [] ds.1)
+    | .idle => let (ds', e) := advance cfg sp win 400 ds []; (ds', tok "r" e ds'.1)
+    | _ => (ds, tok "r" [] ds.1)
   | .out o =>
-    match s.rx with
+    match ds.1.rx with
     | .processing _ _ _ =>
-      match rxStep cfg win s (.rxOutcome o) with
-      | none => (s, tok "x" [] s)
-      | some (s1, e1) => let (s', e) := advance cfg sp win 16 s1 e1; (s', tok "r" e s')
-    | _ => (s, tok "x" [] s)
+      match rxStep cfg win ds (.rxOutcome o) with
+      | none => (ds, tok "x" [] ds.1)
+      | some (ds1, e1) => let (ds', e) := advance cfg sp win 400 ds1 e1; (ds', tok "r" e ds'.1)
+    | _ => (ds, tok "x" [] ds.1)
   | .waited =>
-    match s.rx with
+    match ds.1.rx with
     | .retryWait _ _ _ =>
-      match rxStep cfg win s .rxRetryWaited with
-      | none => (s, tok "x" [] s)
-      | some (s1, e1) => let (s', e) := advance cfg sp win 16 s1 e1; (s', tok "r" e s')
+      match rxStep cfg win ds .rxRetryWaited with
+      | none => (ds, tok "x" [] ds.1)
+      | some (ds1, e1) => let (ds', e) := advance cfg sp win 400 ds1 e1; (ds', tok "r" e ds'.1)
     | .idleWait =>
-      match rxStep cfg win s .rxIdleWaited with
-      | none => (s, tok "x" [] s)
-      | some (s1, e1) => let (s', e) := advance cfg sp win 16 s1 e1; (s', tok "r" e s')
-    | _ => (s, tok "x" [] s)
+      match rxStep cfg win ds .rxIdleWaited with
+      | none => (ds, tok "x" [] ds.1)
+      | some (ds1, e1) => let (ds', e) := advance cfg sp win 400 ds1 e1; (ds', tok "r" e ds'.1)
+    | _ => (ds, tok "x" [] ds.1)
 
-def runOps (cfg : Cfg) (sp : List Nat) (win : Windows) : St → List Op → List String → St × List String
-  | s, [], acc => (s, acc.reverse)
-  | s, o :: os, acc => let (s', t) := runOp cfg sp win s o; runOps cfg sp win s' os (t :: acc)
+def runOps (cfg : Cfg) (sp : List Nat) (win : Windows) : DS → List Op → List String → DS × List String
+  | ds, [], acc => (ds, acc.reverse)
+  | ds, o :: os, acc => let (ds', t) := runOp cfg sp win ds o; runOps cfg sp win ds' os (t :: acc)
 
 def senderLabel? (x : Sexp) : Option Label :=
   match op? x with
@@ -182,18 +232,20 @@ def senderLabel? (x : Sexp) : Option Label :=
   | some (.lab l) => some l
   | _ => none
 
-def window? : Sexp → Option (Bool × Nat × List Label)
-  | .list (.atom "c" :: i :: ops) => do pure (true, ← i.nat?, ← ops.mapM senderLabel?)
-  | .list (.atom "w" :: i :: ops) => do pure (false, ← i.nat?, ← ops.mapM senderLabel?)
+/-- (kind, index or watcher id, sender ops): kind 0 = before the I-th on_batch call, 1 = before the J-th wait call,
+    2 = inside the callback of watcher W -/
+def window? : Sexp → Option (Nat × Nat × List Label)
+  | .list (.atom "c" :: i :: ops) => do pure (0, ← i.nat?, ← ops.mapM senderLabel?)
+  | .list (.atom "w" :: i :: ops) => do pure (1, ← i.nat?, ← ops.mapM senderLabel?)
+  | .list (.atom "cb" :: i :: ops) => do pure (2, ← i.nat?, ← ops.mapM senderLabel?)
   | _ => none
 
 def windows? (ws : List Sexp) : Option Windows := do
   let l ← ws.mapM window?
-  let calls := (l.filter (·.1)).map (·.2)
-  let waits := (l.filter (fun w => !w.1)).map (·.2)
-  -- an index may be given at most once per kind
-  if (calls.map (·.1)).eraseDups.length != calls.length ∨ (waits.map (·.1)).eraseDups.length != waits.length then none
-  else pure ⟨calls, waits⟩
+  let pick (k : Nat) := (l.filter (·.1 == k)).map (·.2)
+  -- an index / id may be given at most once per kind
+  if [0, 1, 2].any (fun k => ((pick k).map (·.1)).eraseDups.length != (pick k).length) then none
+  else pure ⟨pick 0, pick 1, pick 2⟩
 
 def rxName (s : St) : String :=
   match s.rx with
@@ -201,6 +253,7 @@ def rxName (s : St) : String :=
   | .taken _ _ _ _ => "taken"
   | .processing _ _ _ => "proc"
   | .retryWait _ _ _ => "wait"
+  | .notifying _ => "notifying"
   | .idleWait => "wait"
   | .done => if s.tornDown then "dropped" else "done"
 
@@ -251,11 +304,11 @@ def runBatcherProj (p : Proj) (line : String) : String :=
     match cap.nat?.filter (· ≥ 1), nats? sp, windows? ws, ops.mapM op? with
     | some cap, some sp, some win, some ops =>
       let cfg := Cfg.real cap
-      let (s, toks) := runOps cfg sp win init ops []
+      let ((s, used), toks) := runOps cfg sp win (init, []) ops []
       let trace := toks ++ [finalTok s]
       let winHit := trace.any fun t => (t.splitOn ",+").length > 1
       " ".intercalate (trace.map (projectTok p)) ++ "\t" ++ signature s ops.length
-        ++ (if winHit then ",win" else "")
+        ++ (if winHit then ",win" else "") ++ (if used.isEmpty then "" else ",cb")
     | _, _, _, _ => "bad-op"
   | _ => "bad-op"
 
@@ -279,6 +332,7 @@ def rxKind? : Sexp → Option RxKind
   | .atom "live" => some .live
   | .atom "stalled" => some .stalled
   | .atom "gone" => some .gone
+  | .atom "late" => some .late
   | .atom "hangup" => some .hangup
   | _ => none
 
@@ -287,14 +341,20 @@ def pathName : BlockingPath → String
   | .blockInPlace => "block_in_place"
   | .handleBlockOn => "handle_block_on"
 
+/-- TIMEOUT in ms; `max` = Duration::MAX, `maxsecs` = u64::MAX seconds. -/
+def timeout? : Sexp → Option Nat
+  | .atom "max" => some (18446744073709551616 * 1000)
+  | .atom "maxsecs" => some (18446744073709551615 * 1000)
+  | x => x.nat?
+
 def runBlocking (line : String) : String :=
   match Sexp.parse line with
   | some (.list [.atom "bl", api, .atom op, ctx, rx, cap, prefill, timeout]) =>
-    match api? api, ctx? ctx, rxKind? rx, cap.nat?.filter (· ≥ 1), prefill.nat?, timeout.nat? with
+    match api? api, ctx? ctx, rxKind? rx, cap.nat?.filter (· ≥ 1), prefill.nat?, timeout? timeout with
     | some api, some ctx, some rx, some cap, some prefill, some timeout =>
       let cfg := Cfg.real cap
       let path := blockingPath api ctx
-      let rxn := match rx with | .live => "live" | .stalled => "stalled" | .gone => "gone" | .hangup => "hangup"
+      let rxn := match rx with | .live => "live" | .stalled => "stalled" | .gone => "gone" | .late => "late" | .hangup => "hangup"
       let sig := s!"{pathName path},{op},rx={rxn}"
       if (api = .async ∧ ctx ≠ .tokioCurrentThread) ∨ (rx = .hangup ∧ (api ≠ .async ∨ op ≠ "flush")) then "bad-op"
       else if pathPanics path ctx then s!"panic\t{sig}"
@@ -333,10 +393,21 @@ def runMt (line : String) : String :=
     | _, _, _, _ => "bad-op"
   | _ => "bad-op"
 
+/-- stream `batcher_race` (quick): real threads race the teardown of an overflowing queue inside `send` (items
+    whose Drop sleeps). What every interleaving of the atomic steps must satisfy (C09.capacity_bound) is all that
+    is compared: the largest queue length observed is at most the capacity. -/
+def runRace (line : String) : String :=
+  match Sexp.parse line with
+  | some (.list [.atom "race", cap, nb, seed]) =>
+    match cap.nat?.filter (fun c => c ≥ 1 ∧ c ≤ 8), nb.nat?.filter (fun n => n ≥ 1 ∧ n ≤ 4), seed.nat? with
+    | some cap, some nb, some _ => s!"max_pending<=cap\trace,cap={cap},nb={nb}"
+    | _, _, _ => "bad-op"
+  | _ => "bad-op"
+
 def streams : List (String × (String → String)) :=
   [("batcher", runBatcher), ("batcher_c06", runBatcherProj proj06), ("batcher_c07", runBatcherProj proj07),
    ("batcher_c08", runBatcherProj proj08), ("batcher_c09", runBatcherProj proj09),
    ("batcher_blocking", runBlocking), ("batcher_blocking_c07", runBlocking), ("batcher_blocking_c09", runBlocking),
-   ("batcher_blocking_c08", runBlockingC08), ("batcher_mt", runMt)]
+   ("batcher_blocking_c08", runBlockingC08), ("batcher_mt", runMt), ("batcher_race", runRace)]
 
 end EmitModel.Driver.Batcher
